@@ -541,11 +541,18 @@ func (vc *FuncVC) evalBinary(env *Env, x *EBinary) *CVal {
 		case a.T.Sort == SStr && a.Lit != nil:
 			eq = vc.strEqLit(b.T, *a.Lit)
 		default:
+			if a.SRef && !b.SRef && b.Typ != nil && isStruct(b.Typ) {
+				a = &CVal{T: vc.loadStruct(env.st, a.Typ, a.T, a.Suffix), Typ: a.Typ}
+			} else if b.SRef && !a.SRef && a.Typ != nil && isStruct(a.Typ) {
+				b = &CVal{T: vc.loadStruct(env.st, b.Typ, b.T, b.Suffix), Typ: b.Typ}
+			}
 			if a.T.Sort != b.T.Sort && !(a.T.Sort == SInt && b.T.Sort == SReal) && !(a.T.Sort == SReal && b.T.Sort == SInt) {
 				panic(fmt.Errorf("comparison of %s and %s", a.T.Sort, b.T.Sort))
 			}
-			if a.SRef != b.SRef {
-				panic(fmt.Errorf("comparison of a struct object with a struct value"))
+			if a.SRef && !b.SRef {
+				a = &CVal{T: vc.loadStruct(env.st, a.Typ, a.T, a.Suffix), Typ: a.Typ}
+			} else if b.SRef && !a.SRef {
+				b = &CVal{T: vc.loadStruct(env.st, b.Typ, b.T, b.Suffix), Typ: b.Typ}
 			}
 			eq = Eq(a.T, b.T)
 		}
